@@ -516,7 +516,7 @@ def row_samples(ctx, r, secs, unusual):
     ws = base + prio + rest
     mono = all(nondecreasing([q[0] for q in s[1]]) for s in secs if s[0] in ('n', 'k', 'nk'))
     if mono:
-        return ws, list(range(len(base) + min(len(prio) + len(rest), COQ_EXTRA_CAP if unusual else 30)))
+        return ws, list(range(len(base) + min(len(prio) + len(rest), COQ_EXTRA_CAP if unusual else 12)))
     # a table with rows out of order: the Coq model (file order, left-to-right search) is compared only where the
     # neighbouring rows are the same whether the table is read as listed or in increasing order
     cols = [[q[0] for q in s[1]] for s in secs if s[0] in ('n', 'k', 'nk')]
